@@ -66,6 +66,8 @@ type LCfg struct {
 	PSrcCap           int
 	PSrcAllot         int
 	PSrcSeq           int
+	PFunded           int // percent of starting balances that are plainly positive (1..30)
+	PLongSrc          int // percent of plain sends whose source is a flat list of 12..Fanout entries
 	PDstSeq           int
 	PDstAllot         int
 	PKept             int
@@ -558,10 +560,34 @@ func (g *lgen) stmt() {
 			}
 		}
 		src := g.source(g.r.Range(0, g.cfg.Depth), false)
+		if g.pct(g.cfg.PLongSrc) {
+			src = g.longSource()
+		}
 		dst := g.dest(g.r.Range(0, g.cfg.Depth))
 		g.c.Script.Stmts = append(g.c.Script.Stmts, &Send{Sent: &SentValue{E: e}, Src: src, Dst: dst})
 		g.c.Tune = append(g.c.Tune, set)
 	}
+}
+
+// longSource is a flat in-order source of a dozen to Fanout entries, some of them capped (so that
+// the account keeps funds for later entries and statements), accounts repeating now and then.
+func (g *lgen) longSource() Source {
+	hi := g.cfg.Fanout
+	if hi < 14 {
+		hi = 14
+	}
+	k := g.r.Range(12, hi)
+	s := &SrcInorder{}
+	for i := 0; i < k; i++ {
+		var e Source = &SrcAccount{E: g.accountExpr(g.account())}
+		if g.r.Chance(1, 4) {
+			cap, _ := g.monetaryExpr(g.asset, big.NewInt(int64(g.r.Intn(12))), false)
+			e = &SrcCapped{Cap: cap, From: e}
+		}
+		s.Srcs = append(s.Srcs, e)
+	}
+	g.c.Tags["long-source"] = true
+	return s
 }
 
 func (g *lgen) metaKey() string {
@@ -640,6 +666,9 @@ func GenLedger(r *rng.R, cfg LCfg) *Case {
 				c.Balances[a] = map[string]*big.Int{}
 			}
 			c.Balances[a][as] = Balance(r, cfg.PBig, cfg.PNegBal)
+			if r.Intn(100) < cfg.PFunded {
+				c.Balances[a][as] = big.NewInt(int64(1 + r.Intn(30)))
+			}
 		}
 	}
 	// what the store happens to hold for @world must not matter
